@@ -200,7 +200,7 @@ def c08 (op : String) (args : List String) (impl : String) : Verdict :=
     | some code, some id, some auth, some secret, some attrs, some retry, some maxErr, some skip, some peer,
       some cancel, some reply, some garbage =>
       let req : Packet := ⟨code, UInt8.ofNat id, auth, secret, attrs⟩
-      let P : Params := ⟨⟨maxErr, skip != 0⟩, retry, encode md5 req, secret⟩
+      let P : Params := Params.ofPacket md5 ⟨maxErr, skip != 0⟩ retry req
       let evs := match P.wire with
         | .ok _ => scenarioEvents retry maxErr peer cancel reply garbage
         | _ => some []
